@@ -30,6 +30,7 @@ type guardedField struct {
 type Discipline struct {
 	classes  map[string]*lockClass
 	guardOf  map[string]*lockClass // field map name -> lock class
+	guardEmb map[string]*lockClass // emb function name of a guarded by-value struct field -> lock class
 	shared   map[string]string     // field map name -> "monotone" | "any"
 	poolInvs map[string][]*Clause  // pool field path (pkg.Struct.field) -> invariants over (x, self)
 }
@@ -38,7 +39,7 @@ func (w *World) discipline() *Discipline {
 	if w.disc != nil {
 		return w.disc
 	}
-	d := &Discipline{classes: map[string]*lockClass{}, guardOf: map[string]*lockClass{}, shared: map[string]string{}, poolInvs: map[string][]*Clause{}}
+	d := &Discipline{classes: map[string]*lockClass{}, guardOf: map[string]*lockClass{}, guardEmb: map[string]*lockClass{}, shared: map[string]string{}, poolInvs: map[string][]*Clause{}}
 	w.disc = d
 	rank := 0
 	var pkgs []*Pkg
@@ -93,6 +94,11 @@ func (w *World) discipline() *Discipline {
 						lc.Fields = append(lc.Fields, gf)
 						lc.Struct = tn.Type()
 						d.guardOf["F_"+structName(tn.Type())+"."+sanitize(parts[1])] = lc
+						if ft := u.Field(i).Type(); isStructT(ft) {
+							if nt, ok := types.Unalias(ft).(*types.Named); !ok || nt.Obj().Pkg() == nil || strings.HasPrefix(nt.Obj().Pkg().Path(), "github.com/cbeuw/Cloak") {
+								d.guardEmb["emb_"+structName(tn.Type())+"."+sanitize(parts[1])] = lc
+							}
+						}
 					}
 				}
 			}
@@ -293,6 +299,18 @@ func (e *Exec) monitorInv(fr *Frame, st *State, lc *lockClass, root string, pos 
 func (e *Exec) guardField(fr *Frame, st *State, fmap, base string, pos token.Pos, write bool) {
 	d := e.w.discipline()
 	lc, ok := d.guardOf[fmap]
+	if !ok {
+		// field of a by-value struct that is itself a guarded field of its owner:
+		// base = (emb_<Owner>.<field> owner)
+		for embName, c := range d.guardEmb {
+			if strings.HasPrefix(base, "("+embName+" ") && strings.HasSuffix(base, ")") {
+				lc, ok = c, true
+				fmap = "F_" + strings.TrimPrefix(embName, "emb_") + "/" + strings.TrimPrefix(fmap, "F_")
+				base = base[len(embName)+2 : len(base)-1]
+				break
+			}
+		}
+	}
 	if !ok || fr.entry == nil {
 		return
 	}
@@ -307,6 +325,11 @@ func (e *Exec) guardField(fr *Frame, st *State, fmap, base string, pos token.Pos
 	key := "guard." + strings.TrimPrefix(fmap, "F_")
 	e.sc.oblig(st.reach, or(sel(e.hget(st, "G_held"), id), fmt.Sprintf("(> %s %s)", base, entryAlloc)),
 		fmt.Sprintf("%s#%s", e.unit, key)+e.siteSuffix(key), "lock", fmt.Sprintf("access to %s requires holding %s", strings.TrimPrefix(fmap, "F_"), lc.Name), e.pos(pos))
+}
+
+func (e *Exec) fieldMapName(st types.Type, i int) string {
+	u := st.Underlying().(*types.Struct)
+	return "F_" + structName(st) + "." + sanitize(u.Field(i).Name())
 }
 
 // lockIDFromClass computes the lock identity for object base from the class path (pkg.Struct.f1.f2...).
